@@ -307,6 +307,28 @@ var fieldPool = []poolField{
 		return reflect.ValueOf(c)
 	}},
 	{"Stamp", `avp:"Event-Timestamp"`, reflect.TypeOf(datatype.Time{}), func(r *rand.Rand) reflect.Value { return reflect.ValueOf(datatype.Time(genTime(r))) }},
+	// omitempty on a pointer and on a slice: only a nil pointer / an empty slice is omitted - a pointer to zero and zero
+	// elements of a non-empty slice are values (added after a seeded change that applied the emptiness test to them)
+	{"OptInterval", `avp:"Acct-Interim-Interval,omitempty"`, reflect.TypeOf((*uint32)(nil)), func(r *rand.Rand) reflect.Value {
+		switch r.Intn(3) {
+		case 0:
+			return reflect.Zero(reflect.TypeOf((*uint32)(nil)))
+		case 1:
+			return ptrTo(reflect.ValueOf(uint32(0)))
+		}
+		return ptrTo(reflect.ValueOf(gen32(r)))
+	}},
+	{"OptSecurity", `avp:"Inband-Security-Id,omitempty"`, reflect.TypeOf([]uint32(nil)), func(r *rand.Rand) reflect.Value {
+		var c []uint32
+		for i, n := 0, r.Intn(4); i < n; i++ {
+			if r.Intn(2) == 0 {
+				c = append(c, 0)
+			} else {
+				c = append(c, gen32(r))
+			}
+		}
+		return reflect.ValueOf(c)
+	}},
 	// fields declared with a datatype type that is not the dictionary's type for the AVP but converts to it: the AVP
 	// must still carry the dictionary's type (added after a seeded change that used the field's type as it was)
 	{"RedirectAsUTF8", `avp:"Redirect-Host"`, reflect.TypeOf(datatype.UTF8String("")), func(r *rand.Rand) reflect.Value { return reflect.ValueOf(datatype.UTF8String("aaa://" + genStr(r))) }},
@@ -638,7 +660,7 @@ func main() {
 		"property_id": "C18", "tier": *tier, "seed": *seed, "level": "exploration", "wall_s": time.Since(t0).Seconds(), "violations": len(fails),
 		"coverage": map[string]interface{}{
 			"evaluations": evals, "distinct_nontrivial": len(distinct),
-			"rule": "BOUNDED stand-in, not a proof: three struct types and a generated family (Layout: a random subset of a pool of 19 tagged fields (three of them declared with a datatype type that differs from, but converts to, the dictionary's type) in random order, split over the outer struct and up to two anonymous embedded structs placed at random positions, built with reflect.StructOf, three per round; Scalars: one field per data type incl. native Go scalars; Shapes: embedded struct, []T, []datatype, *T, nested group, anonymous group struct, []*struct up to 3 elements, *struct, omitempty; AVPs: *AVP, []*AVP, AVP) x generated values (zero values, corner values of every width, NaN / infinities / denormals, empty and odd-length strings, times on both sides of the 2036 era boundary, IPv4 and IPv6 addresses); each case is marshalled, unmarshalled directly and after Serialize+ReadMessage, compared by a canonical text (floats by bit pattern, times to the second, nil == empty slice); for Scalars the AVPs are also compared with the dictionary (code, vendor id, M/V flags, type); for every case every AVP Marshal produced (recursively) must carry the dictionary's data type and V flag for its code; each message is also re-read with its grouped AVPs relabelled as an unknown vendor's (opaque data) and unmarshalled, which must not panic. A case is distinct by its canonical text; every generated case is non-trivial in that all fields are set from the generator.",
+			"rule": "BOUNDED stand-in, not a proof: three struct types and a generated family (Layout: a random subset of a pool of 21 tagged fields (omitempty on a pointer that may point to zero and on a slice that may hold zeros among them) (three of them declared with a datatype type that differs from, but converts to, the dictionary's type) in random order, split over the outer struct and up to two anonymous embedded structs placed at random positions, built with reflect.StructOf, three per round; Scalars: one field per data type incl. native Go scalars; Shapes: embedded struct, []T, []datatype, *T, nested group, anonymous group struct, []*struct up to 3 elements, *struct, omitempty; AVPs: *AVP, []*AVP, AVP) x generated values (zero values, corner values of every width, NaN / infinities / denormals, empty and odd-length strings, times on both sides of the 2036 era boundary, IPv4 and IPv6 addresses); each case is marshalled, unmarshalled directly and after Serialize+ReadMessage, compared by a canonical text (floats by bit pattern, times to the second, nil == empty slice); for Scalars the AVPs are also compared with the dictionary (code, vendor id, M/V flags, type); for every case every AVP Marshal produced (recursively) must carry the dictionary's data type and V flag for its code; each message is also re-read with its grouped AVPs relabelled as an unknown vendor's (opaque data) and unmarshalled, which must not panic. A case is distinct by its canonical text; every generated case is non-trivial in that all fields are set from the generator.",
 			"samples": samples, "exhaustive": false,
 		},
 		"assumptions": []string{"bounded exploration only: " + fmt.Sprint(*n) + " random cases per struct type from the seed, slices of at most 3 elements, group nesting depth 2; reflect.go is NOT verified", "the base dictionary plus one generated dictionary (ten AVPs covering the data types the base lacks)"},
